@@ -471,7 +471,24 @@ def corpus():
         ("legacy_magic", struct.pack("<I", 0x184C2102) + e * 3, "error"),
         ("skippable_then_garbage", F.skippable(3, b"abc") + b"zzz", "complete"),
     ]
+
+def skip_asymmetry(st, acc, rng):
+    """skipChecksums=1 skips the block checksum of uncompressed blocks but NOT of compressed blocks
+    (lz4frame.c:1874-1886): pinned here against the model (Example C08_example_skip_asymmetry)"""
+    e = struct.pack("<I", 0)
+    for name, fr, want in [("compressed block, damaged block checksum, skipChecksums", F.header(bcrc=True) + F.block(declib.enc_last(b"abcde"), False, True, bad_crc=True) + e, "error"),
+                           ("uncompressed block, damaged block checksum, skipChecksums", F.header(bcrc=True) + F.block(b"abcde", True, True, bad_crc=True) + e, "complete")]:
+        for ch in ("whole", "one"):
+            s = F.Session(st)
+            r = F.drive(s, rng, fr, ch, "large", skip=True)
+            acc.evals += s.calls
+            s.free()
+            if r.get("corr"):
+                acc.fail("corr_fail", "model/code disagree on %s: %s" % (name, r["corr"]), {"data": fr.hex()}); return
+            if r["verdict"] != want:
+                acc.fail("corr_fail", "%s: the code now says %s (the model and the recorded behaviour: %s)" % (name, r["verdict"], want), {"data": fr.hex()}); return
 def k_corpus(st, acc, rng, case):
+    skip_asymmetry(st, acc, rng)
     for name, data, expect in corpus():
         ref = check_sessions(st, acc, rng, data, 6, 65536, 7, None, mutated=True)
         if ref is not None and ref[1]["verdict"] != expect:
